@@ -64,7 +64,35 @@ def desc(x):
 def build(x):
     if x[0] == 'num':
         return x[1]
+    if len(x) > 3 and x[3] is not None:
+        # operand obtained by converting another representation *in place*: afterwards the object must
+        # behave exactly like one constructed with (value, unit)
+        q = getattr(U, x[0])(x[3][0], x[3][1])
+        q.to(x[2], inplace=True)
+        return q
     return getattr(U, x[0])(x[1], x[2])
+
+
+def via_inplace(rng, x):
+    """re-create operand `x` = [kind, value, unit] through an in-place conversion from another unit;
+    the case keeps the value the object really holds afterwards"""
+    if x[0] == 'num' or rng.random() > 0.25:
+        return x
+    k = x[0]
+    u0 = rng.choice(units_of(k))
+    if u0 == x[2]:
+        return x
+    v0 = float(F(x[1]) * SI[k][x[2]] / SI[k][u0])
+    if not sign_ok(k, v0):
+        return x
+    try:
+        q = getattr(U, k)(v0, u0)
+        q.to(x[2], inplace=True)
+    except Exception:  # noqa: BLE001
+        return x
+    if not sign_ok(k, q.value):
+        return x
+    return [k, q.value, x[2], [v0, u0]]
 
 
 def gen_value(rng, kind=None, decades=6):
@@ -138,7 +166,7 @@ def cancellation(op, a, b, out, mo):
     code, decides its value or sign (outside what the rational model can compare)"""
     if op not in ('add', 'sub') or a[0] == 'num' or b[0] == 'num' or base(a[0]) != base(b[0]):
         return False
-    sa, sb = si(*a), si(*b)
+    sa, sb = si(*a[:3]), si(*b[:3])
     scale = max(abs(sa), abs(sb))
     vals = []
     for o in (out, mo):
@@ -192,7 +220,7 @@ def spec_kind(op, ka, kb):
 
 
 def si_of(x):
-    return F(x[1]) if x[0] == 'num' else si(x[0], x[1], x[2])
+    return F(x[1]) if x[0] == 'num' else si(x[0], x[1], x[2])      # (a 4th entry, the in-place provenance, is ignored)
 
 
 def exact_of(op, sa, sb):
@@ -267,7 +295,8 @@ def gen_bin_cases(ctx, per_cell):
                 def operand(k):
                     if k == 'num':
                         return ['num', gen_value(rng)]
-                    return [k, gen_value(rng, k), rng.choice(units_of(k))]
+                    x = [k, gen_value(rng, k), rng.choice(units_of(k))]
+                    return via_inplace(rng, x) if sign_ok(k, x[1]) else x
                 cases.append({'t': 'bin', 'op': op, 'a': operand(ka), 'b': operand(kb)})
     return cases
 
@@ -319,6 +348,7 @@ def eval_laws(ctx, n):
         b = [k2, gen_value(rng, k2, 4), rng.choice(units_of(k2))]
         if not (valid_operand(a) and valid_operand(b)):
             continue
+        a, b = via_inplace(rng, a), via_inplace(rng, b)
         qa, qb = build(a), build(b)
         case = {'t': 'law', 'a': a, 'b': b}
         try:
@@ -329,8 +359,8 @@ def eval_laws(ctx, n):
             defined = False
         ctx.case_done(case, nontrivial=defined)
         if defined:
-            ga, gr = si(*a), si(type(r).__name__, r.value, r.unit)
-            scale = max(abs(ga), abs(si(*b)))
+            ga, gr = si(*a[:3]), si(type(r).__name__, r.value, r.unit)
+            scale = max(abs(ga), abs(si(*b[:3])))
             if abs(ga - gr) > F(1, 10 ** 9) * scale:
                 if type(s).__name__ in BASE and b[0] == BASE[type(s).__name__]:
                     ctx.known_finding('K2', case)
@@ -346,7 +376,7 @@ def eval_laws(ctx, n):
             continue
         ctx.count('antisymmetry defined')
         g1, g2 = si(type(d1).__name__, d1.value, d1.unit), si(type(d2).__name__, d2.value, d2.unit)
-        scale = max(abs(si(*a)), abs(si(*b)))
+        scale = max(abs(si(*a[:3])), abs(si(*b[:3])))
         if abs(g1 - g2) > F(1, 10 ** 9) * scale:
             if (a[0] in BASE and b[0] == BASE[a[0]]) or (b[0] in BASE and a[0] == BASE[b[0]]):
                 ctx.known_finding('K2', case)
@@ -476,7 +506,7 @@ def eval_cmp(ctx, cases):
     for c, out, ml in zip(keep, impl, model):
         a, b, op = c['a'], c['b'], c['c']
         ctx.case_done(c, nontrivial=a[2] != b[2])
-        sa, sb = si(*a), si(*b)
+        sa, sb = si(*a[:3]), si(*b[:3])
         scale = max(abs(sa), abs(sb))
         gap = abs(sa - sb)
         if out[0] != 'bool':
